@@ -26,6 +26,7 @@ EXPLANATION = (
     "register read inside a getter denotes a table row with the same width and signedness, totals equal the sum of their parts, "
     "computed powers are round(voltage x current) of the like-numbered rows, and a formula documented in the comment above a row "
     "equals the getter after substituting the rows' own decoders. Label texts and the thresholds of read_grid_mode are not decided."
+    ' (R4, shared with C12.R2) Sensor.read positions at its own offset and decodes, on every path: raw and derived values of one result come from the same positions of the same buffer.'
 )
 
 LABEL_CLASSES = ("Enum", "EnumH", "EnumL", "Enum2", "EnumBitmap4", "EnumCalculated")
